@@ -3,10 +3,12 @@
   aliasing in, out, or inside).  Only statements live here; lemmas are in Proofs/C07*.lean.
 
   Impl  = MongoModel.Heap: values with object identity, the copy primitives, the table
-          `copyDiscipline` (which primitive the code applies at which value-carrying position;
-          tied to /repo by the sharing-graph correspondence of harness/props/c07.py), and
-          `step` (what a call does to the world — the store, what the caller holds, what the
-          caller's cursors have cached — given a table).
+          `disciplineFor tz` (which primitives the code applies at which value-carrying position,
+          for a client that reads naive datetimes — `copyDiscipline` — and for a `tz_aware` one,
+          which rebuilds everything it reads once more; tied to /repo by the sharing-graph
+          correspondence of harness/props/c07.py), and `step` (what a call does to the world —
+          the store, what the caller holds, what the caller's cursors keep: their cached results
+          and their copies of the query — given a table).
   Spec  = the invariant `Sep` itself (the property is a law about the implementation): no object
           twice in the store, nothing stored is held by the caller, nothing a cursor has cached is
           held by the caller or stored.
@@ -14,11 +16,12 @@
           takes each value from where its position says — no condition on what is copied, none
           on which position is used where).  Since the fixes "projections and write results hand
           out copies, and leave the projection argument alone" (5ac4c3c), "$literal and array
-          constants of a pipeline are handed out as copies" (aab0261) and "a cursor hands out a
-          copy of its cached result each time" (b973460) EVERY final position carries a deep copy
-          (`final_positions_copy`): the theorems are stated for ALL operations, cursor re-reads
-          (rewind, indexing, re-iteration, clone, `cursor.distinct`) included, and no exclusion
-          class is left.  The positions where the code does not copy (`aliasing_positions`) are
+          constants of a pipeline are handed out as copies" (aab0261), "a cursor hands out a
+          copy of its cached result each time" (b973460) and "a cursor copies the projection it is
+          given" (b829c96) EVERY final position carries a deep copy (`final_positions_copy`): the
+          theorems are stated for ALL operations and both kinds of client, cursor re-reads
+          (rewind, indexing, re-iteration, clone, `cursor.distinct`) and the query a cursor keeps
+          included, and no exclusion class is left.  The positions where the code does not copy (`aliasing_positions`) are
           three inner positions that a later position rebuilds.
 -/
 import Proofs.C07
@@ -83,10 +86,10 @@ example : Sep sampleWorld ∧ Bounded sampleWorld ∧
     (any positions of any operation, any values — embedded-document `_id`s, projected arrays of
     sub-documents, a cursor computing its results, a cursor handing them out again, …) runs in a
     separated world, the world stays separated. -/
-theorem step_sep (w : World) (s : Step) (hsep : Sep w) (hb : Bounded w)
+theorem step_sep (tz : Bool) (w : World) (s : Step) (hsep : Sep w) (hb : Bounded w)
     (hw : s.wellFormed = true) (hc : s.callerOwns w = true) :
-    Sep (step copyDiscipline w s) ∧ Bounded (step copyDiscipline w s) :=
-  step_sep_of_safe copyDiscipline w s hsep hb (Proofs.C07.wellFormed_safe w s hw hc)
+    Sep (step (disciplineFor tz) w s) ∧ Bounded (step (disciplineFor tz) w s) :=
+  step_sep_of_safe (disciplineFor tz) w s hsep hb (Proofs.C07.wellFormed_safe tz w s hw hc)
 
 /-- `find({}, {'a': {'$slice': 1}})` on a document whose `_id` is an embedded document: the
     projection re-attaches `_id` and takes the array out of the stored document; the cursor keeps
@@ -127,24 +130,27 @@ example : Op.updateMany.copying copyDiscipline = true ∧ Sep sampleWorld ∧ Bo
 /-- Under the real table EVERY operation — the cursor hand-outs `next` / `cursor[i]` /
     `cursor.distinct` included — copies at every final position, whatever its flow (the
     caller → caller and cache → caller positions are no exception any more). -/
-theorem copying_ops : Op.all.filter (Op.copying copyDiscipline) = Op.all := by decide
+theorem copying_ops (tz : Bool) : Op.all.filter (Op.copying (disciplineFor tz)) = Op.all := by
+  cases tz <;> decide
 
 /-- The positions where the code does not copy: three inner positions (the document handed to
     `_insert`, the seed and `_id` of an upsert — all rebuilt by `_insert` before they are stored).
-    (`agg-literal-alias` and `cursor-cache-alias` were two more, both caller → caller; repaired in
-    /repo: pipeline constants and cached cursor results are copied on the way out.) -/
-theorem aliasing_positions :
-    copyDiscipline.aliasing = [.insertArg, .upsertSeed, .upsertId] := by
-  decide
+    (`agg-literal-alias` and `cursor-cache-alias` were two more, both caller → caller, and the
+    projection a cursor keeps a third, argument → cursor; repaired in /repo: pipeline constants
+    and cached cursor results are copied on the way out, the projection on the way in.)
+    The same for a `tz_aware` client. -/
+theorem aliasing_positions (tz : Bool) :
+    (disciplineFor tz).aliasing = [.insertArg, .upsertSeed, .upsertId] := by
+  cases tz <;> decide
 
 /-- none of them is a final position: whatever lands in the store, in a cursor's cache or with the
     caller has been deep-copied on the way -/
-theorem final_positions_copy :
-    (∀ p, p ∈ copyDiscipline.aliasing → p.final = false) ∧
-    (∀ p, p.final = true → chainDeep (copyDiscipline.disc p) = true) := by
+theorem final_positions_copy (tz : Bool) :
+    (∀ p, p ∈ (disciplineFor tz).aliasing → p.final = false) ∧
+    (∀ p, p.final = true → chainDeep ((disciplineFor tz).disc p) = true) := by
   constructor
-  · decide
-  · intro p; cases p <;> decide
+  · cases tz <;> decide
+  · intro p; cases tz <;> cases p <;> decide
 
 /-! ### histories -/
 
@@ -182,10 +188,10 @@ def sampleCursorHistory : List Step :=
 
 /-- **Every world reachable through the API is separated** (induction over histories): any
     history of well-formed steps, of any operations, under the code's table. -/
-theorem reachable_sep (steps : List Step) (h : wfRun copyDiscipline World.empty steps = true) :
-    Sep (run copyDiscipline World.empty steps) ∧ Bounded (run copyDiscipline World.empty steps) :=
-  (Proofs.C07.invC_iff _).mpr (Proofs.C07.run_inv copyDiscipline steps _ Proofs.C07.invC_empty
-    (Proofs.C07.wfRun_safeRun steps _ h))
+theorem reachable_sep (tz : Bool) (steps : List Step) (h : wfRun (disciplineFor tz) World.empty steps = true) :
+    Sep (run (disciplineFor tz) World.empty steps) ∧ Bounded (run (disciplineFor tz) World.empty steps) :=
+  (Proofs.C07.invC_iff _).mpr (Proofs.C07.run_inv (disciplineFor tz) steps _ Proofs.C07.invC_empty
+    (Proofs.C07.wfRun_safeRun tz steps _ h))
 
 example : wfRun copyDiscipline World.empty
     (sampleCursorHistory ++ [sampleProjectedFill, .read [.piece .cursorOut (.cache 2 [])]]) = true ∧
@@ -193,12 +199,12 @@ example : wfRun copyDiscipline World.empty
   decide +kernel
 
 /-- the same from any separated world -/
-theorem reachable_sep_from (w : World) (steps : List Step) (hsep : Sep w) (hb : Bounded w)
-    (h : wfRun copyDiscipline w steps = true) :
-    Sep (run copyDiscipline w steps) ∧ Bounded (run copyDiscipline w steps) :=
+theorem reachable_sep_from (tz : Bool) (w : World) (steps : List Step) (hsep : Sep w) (hb : Bounded w)
+    (h : wfRun (disciplineFor tz) w steps = true) :
+    Sep (run (disciplineFor tz) w steps) ∧ Bounded (run (disciplineFor tz) w steps) :=
   (Proofs.C07.invC_iff _).mpr
-    (Proofs.C07.run_inv copyDiscipline steps w ((Proofs.C07.invC_iff w).mp ⟨hsep, hb⟩)
-      (Proofs.C07.wfRun_safeRun steps w h))
+    (Proofs.C07.run_inv (disciplineFor tz) steps w ((Proofs.C07.invC_iff w).mp ⟨hsep, hb⟩)
+      (Proofs.C07.wfRun_safeRun tz steps w h))
 
 example : Sep sampleWorld ∧ Bounded sampleWorld ∧
     wfRun copyDiscipline sampleWorld [sampleUpdateMany, sampleProjectedFill, sampleHandOut,
@@ -236,11 +242,11 @@ theorem mutate_held_keeps_cache (w : World) (id : Nat) (f : HVal → HVal) (hsep
 /-- … so that **reading the cursor again** (`rewind()` and iterate, `cursor[i]`) **gives the value
     it gave the first time**, whatever happened to the objects handed out before: the result is the
     cached value, identities forgotten. -/
-theorem reread_unaffected (w : World) (id : Nat) (f : HVal → HVal) (hsep : Sep w)
+theorem reread_unaffected (tz : Bool) (w : World) (id : Nat) (f : HVal → HVal) (hsep : Sep w)
     (hid : id ∈ idsL w.held) (i : Nat) (p : List Nat) :
-    ∃ r, (step copyDiscipline (w.mutate id f) (.read [.piece .cursorOut (.cache i p)])).held
+    ∃ r, (step (disciplineFor tz) (w.mutate id f) (.read [.piece .cursorOut (.cache i p)])).held
         = (w.mutate id f).held ++ [r] ∧ r.erase = (getAt w.cache i p).erase :=
-  Proofs.C07.reread_unaffected w id f hsep hid i p
+  Proofs.C07.reread_unaffected tz w id f hsep hid i p
 
 example : Sep (step copyDiscipline sampleWorld sampleHandOut) ∧
     13 ∈ idsL (step copyDiscipline sampleWorld sampleHandOut).held := by decide +kernel
@@ -249,15 +255,15 @@ example : Sep (step copyDiscipline sampleWorld sampleHandOut) ∧
     to an object it holds — an argument it passed, a result it was given, by `find`, by a cursor
     read once or again, by `distinct`, by `aggregate` — changes what is stored or what a cursor
     will hand out next.** -/
-theorem reachable_caller_cannot_reach (steps : List Step)
-    (h : wfRun copyDiscipline World.empty steps = true) (id : Nat) (f : HVal → HVal)
-    (hid : id ∈ idsL (run copyDiscipline World.empty steps).held) :
-    ((run copyDiscipline World.empty steps).mutate id f).store
-      = (run copyDiscipline World.empty steps).store ∧
-    ((run copyDiscipline World.empty steps).mutate id f).cache
-      = (run copyDiscipline World.empty steps).cache :=
-  ⟨mutate_held_noop _ id f (reachable_sep steps h).1 hid,
-   mutate_held_keeps_cache _ id f (reachable_sep steps h).1 hid⟩
+theorem reachable_caller_cannot_reach (tz : Bool) (steps : List Step)
+    (h : wfRun (disciplineFor tz) World.empty steps = true) (id : Nat) (f : HVal → HVal)
+    (hid : id ∈ idsL (run (disciplineFor tz) World.empty steps).held) :
+    ((run (disciplineFor tz) World.empty steps).mutate id f).store
+      = (run (disciplineFor tz) World.empty steps).store ∧
+    ((run (disciplineFor tz) World.empty steps).mutate id f).cache
+      = (run (disciplineFor tz) World.empty steps).cache :=
+  ⟨mutate_held_noop _ id f (reachable_sep tz steps h).1 hid,
+   mutate_held_keeps_cache _ id f (reachable_sep tz steps h).1 hid⟩
 
 example : wfRun copyDiscipline World.empty sampleCursorHistory = true ∧
     48 ∈ idsL (run copyDiscipline World.empty sampleCursorHistory).held ∧
@@ -279,11 +285,11 @@ example : Sep sampleWorld ∧ 3 ∈ idsL sampleWorld.store := by decide +kernel
     of a document at two places of a result — `$addFields: {q: '$b', r: '$b'}` — returns that
     object twice inside the one result; how a stage assembles a document is not modelled here,
     the positions `aggDoc` / `aggAddFields` / `aggUnwind` stand for whole output documents.) -/
-theorem results_fresh (w : World) (results : List Tpl)
+theorem results_fresh (tz : Bool) (w : World) (results : List Tpl)
     (hw : (Step.read results).wellFormed = true) :
-    ∃ new, (step copyDiscipline w (.read results)).held = w.held ++ new ∧ (idsL new).Nodup ∧
-      ∀ a, a ∈ idsL new → w.next ≤ a ∧ a < (step copyDiscipline w (.read results)).next :=
-  Proofs.C07.read_fresh w results hw
+    ∃ new, (step (disciplineFor tz) w (.read results)).held = w.held ++ new ∧ (idsL new).Nodup ∧
+      ∀ a, a ∈ idsL new → w.next ≤ a ∧ a < (step (disciplineFor tz) w (.read results)).next :=
+  Proofs.C07.read_fresh tz w results hw
 
 example : (Step.read [.piece .cursorOut (.cache 0 []), .piece .cursorOut (.cache 0 []),
     .piece .aggLiteral (.held 0 [0]), .piece .distinctVal (.cache 0 [1])]).wellFormed = true := by
@@ -292,13 +298,13 @@ example : (Step.read [.piece .cursorOut (.cache 0 []), .piece .cursorOut (.cache
 /-- … hence editing one of them changes nothing else: not the store, not a cursor's cache, not
     any object the caller held before the call (another result of an earlier read of the same
     cursor, the pipeline whose constant appears in it, …). -/
-theorem result_private (w : World) (hb : Bounded w) (results : List Tpl)
+theorem result_private (tz : Bool) (w : World) (hb : Bounded w) (results : List Tpl)
     (hw : (Step.read results).wellFormed = true) (id : Nat) (f : HVal → HVal)
-    (hid : id ∈ idsL ((step copyDiscipline w (.read results)).held.drop w.held.length)) :
-    ((step copyDiscipline w (.read results)).mutate id f).store = w.store ∧
-    ((step copyDiscipline w (.read results)).mutate id f).cache = w.cache ∧
-    ((step copyDiscipline w (.read results)).mutate id f).held.take w.held.length = w.held :=
-  Proofs.C07.result_private w hb results hw id f hid
+    (hid : id ∈ idsL ((step (disciplineFor tz) w (.read results)).held.drop w.held.length)) :
+    ((step (disciplineFor tz) w (.read results)).mutate id f).store = w.store ∧
+    ((step (disciplineFor tz) w (.read results)).mutate id f).cache = w.cache ∧
+    ((step (disciplineFor tz) w (.read results)).mutate id f).held.take w.held.length = w.held :=
+  Proofs.C07.result_private tz w hb results hw id f hid
 
 example : Bounded sampleWorld ∧ sampleHandOut.wellFormed = true ∧
     14 ∈ idsL ((step copyDiscipline sampleWorld sampleHandOut).held.drop sampleWorld.held.length) := by
@@ -378,9 +384,46 @@ theorem cursor_copy_needed :
     decide +kernel
   · exact mutate_held_keeps_cache _ 14 _ (by decide +kernel) (by decide +kernel)
 
+/-- And for the query a cursor keeps: `find({}, {'a': {'$slice': 1}})` — the caller passes the
+    projection, the cursor keeps a deep copy of it (`Cursor._projection`). -/
+def sampleFind : List Step :=
+  [ .pass [.node 20 true [("a", .node 21 true [("$slice", .atom (.int 1))])]],
+    .fill [.piece .cursorProj (.held 1 [])] ]
+
+/-- The table in which the cursor keeps the caller's projection object itself (the behaviour
+    before the fix "a cursor copies the projection it is given", b829c96) puts an object of the
+    caller into the cursor: the caller editing its dictionary after `find` returned edits what
+    the cursor will read when it computes its results (first iteration, `clone()`, `sort()`).
+    With the code's table the cursor's copy stays as it was. -/
+def keptProjectionTable : Table where
+  disc
+    | .cursorProj => [.noCopy]
+    | p => copyDiscipline.disc p
+
+theorem query_copy_needed :
+    ¬ Sep (run keptProjectionTable sampleWorld sampleFind) ∧
+    ((run keptProjectionTable sampleWorld sampleFind).mutate 21
+        (scribbleFn [] [("$elemMatch", .null)])).cache
+      ≠ (run keptProjectionTable sampleWorld sampleFind).cache ∧
+    Sep (run copyDiscipline sampleWorld sampleFind) ∧
+    ((run copyDiscipline sampleWorld sampleFind).mutate 21
+        (scribbleFn [] [("$elemMatch", .null)])).cache
+      = (run copyDiscipline sampleWorld sampleFind).cache := by
+  refine ⟨by decide +kernel, ?_, by decide +kernel, ?_⟩
+  · intro h
+    have := congrArg (fun st => st.map HVal.size) h
+    revert this
+    decide +kernel
+  · exact mutate_held_keeps_cache _ 21 _ (by decide +kernel) (by decide +kernel)
+
+example : wfRun copyDiscipline sampleWorld
+    (sampleFind ++ [.fill [.piece .cloneProj (.cache 1 []), .piece .cursorSpec (.held 1 [])]]) = true := by
+  decide +kernel
+
 /-! ### arguments -/
 
-/-- **Calls do not modify their arguments**: writes and reads leave every object the caller holds
+/-- **Calls do not modify their arguments**: writes, reads and the making of a cursor (which keeps
+    copies of the filter and the projection it is given) leave every object the caller holds
     exactly as it was (passing further arguments only adds to what is held). -/
 theorem args_unchanged (T : Table) (w : World) (s : Step)
     (hs : match s with | .calleeWrite .. => False | .scribble .. => False | _ => True) :
@@ -389,6 +432,9 @@ theorem args_unchanged (T : Table) (w : World) (s : Step)
 
 example : (match sampleUpdateMany with | .calleeWrite .. => False | .scribble .. => False | _ => True) :=
   trivial
+
+example : (match Step.fill [.piece .cursorSpec (.held 0 []), .piece .cursorProj (.held 0 [0])] with
+    | .calleeWrite .. => False | .scribble .. => False | _ => True) := trivial
 
 /-- The one kind of step by which a call edits an argument touches only the objects that contain
     the edited container … -/
